@@ -10,9 +10,9 @@ Local Open Scope N_scope.
 Definition lex_item (i : SM.item) : list token :=
   match i with
   | SM.IStart name decls attrs =>
-    tag_errs_of (XRoundTrip.item_raws decls attrs) ++
+    tag_errs_of (SM.qual name) (XRoundTrip.item_raws decls attrs) ++
     [TTag TStartTag (SM.qual name) false (tag_attrs_of (XRoundTrip.item_raws decls attrs)) false]
-  | SM.IEnd name => [TTag TEndTag (SM.qual name) false [] false]
+  | SM.IEnd name => bad_errs (SM.qual name) ++ [TTag TEndTag (SM.qual name) false [] false]
   | SM.IText s => exp_text s
   | SM.IComment s => comment_toks s
   | SM.IPi t d => pi_toks t d
@@ -70,7 +70,7 @@ Proof.
     + rewrite render_start_shape. rewrite <- !app_assoc. exact S.
     + rewrite T. unfold lex_item. rewrite rev_app_distr. reflexivity.
   - destruct (end_tag_lex tb TB simd ent c1 sk NoScript (SM.qual nm) b cu tk tn ta rest o k OK) as (o' & k' & S & T).
-    exists 62, TEndTag, [], [], o', k'. split; [|rewrite T; reflexivity].
+    exists 62, TEndTag, [], [], o', k'. split; [|rewrite T; unfold lex_item; rewrite rev_app_distr; reflexivity].
     unfold SM.render_item. rewrite <- !app_assoc. exact S.
   - destruct (TX eq_refl) as (q & ->).
     destruct (text_lex tb TB simd ent c1 sk E5 s b cu tk tn ta [] [] q o k OK) as (cu' & o' & k' & S & T).
